@@ -92,7 +92,9 @@ func c15Pick(w int) (c15Construct, string) {
 		if r {
 			c = "-}}"
 		}
-		return c15Construct{marked: o + " v " + c, plain: "{{ v }}", stripPreR: l, stripPostL: r}, ""
+		// the expression directly behind / in front of the marker: blank, identifier, number literal
+		body := []string{" v ", "v", "1", "7 ", " 2|add:3"}[verifChoice(5)]
+		return c15Construct{marked: o + body + c, plain: "{{" + body + "}}", stripPreR: l, stripPostL: r}, ""
 	case 1, 2: // if-block / for-block with inner text
 		a, b, c, d := m(), m(), m(), m()
 		open, end := " if t ", " endif "
